@@ -189,6 +189,22 @@ def systematic(col, rng):
                                       ('f', ('fn', f))], dict))
     col.case(('sys-ref',), True)
     run_both(col, gen, node, tree, am.describe(node), 'ref')
+    # Ref(name) resolves to the NEAREST enclosing Ref(name, spec): an inner definition of the same name shadows the outer one
+    for variant in range(4):
+        gen = am.Gen(rng)
+        inner_leaf = ('dict', [('inner', ('path', 'v')), ('f', ('fn', gen.fn('pair')))], dict)
+        if variant == 0:
+            node = ('ref', 'n', ('tuple', [('path', 'kids'), ('t', [('[', 0)]), ('ref', 'n', inner_leaf)]))
+        elif variant == 1:
+            inner = ('ref', 'n', ('dict', [('leafv', ('path', 'v')), ('sub', ('tuple', [('path', 'kids'), ('list', ('ref', 'n', None))]))], dict))
+            node = ('ref', 'n', ('dict', [('own', ('path', 'v')), ('kids', ('tuple', [('path', 'kids'), ('list', inner)]))], dict))
+        elif variant == 2:
+            node = ('ref', 'a', ('dict', [('x', ('ref', 'b', ('tuple', [('path', 'v'), ('fn', gen.fn('pair'))]))),
+                                          ('y', ('tuple', [('path', 'kids'), ('list', ('ref', 'a', ('path', 'v')))]))], dict))
+        else:
+            node = ('tuple', [('ref', 'n', ('path', 'kids')), ('list', ('ref', 'n', ('dict', [('v', ('path', 'v')), ('k', ('tuple', [('path', 'kids'), ('list', ('ref', 'n', None))]))], dict)))])
+        col.case(('sys-ref-shadow', variant), True)
+        run_both(col, gen, node, tree, am.describe(node), 'ref')
 
 
 def run(ctx):
